@@ -188,6 +188,7 @@ class Sched:
         self.armed = set()
         self.baseline = interpreter_settings()
         self.changed = None
+        self.record = None
 
     def _advance(self):
         self.idx += 1
@@ -221,6 +222,28 @@ class Sched:
                 self._advance()
 
     def event(self, me, event, info):
+        if event == 'line':
+            # a statement of the library starts on this thread (sys.monitoring): a preemption point below the
+            # granularity of the hooks; nothing is recorded but the place where the baton changes hands
+            if 'line' not in self.points:
+                return
+            with self.cv:
+                c = self.counts[me]
+                c['line'] = c.get('line', 0) + 1
+                if self.record is not None:
+                    self.record.append(info.get('where', ''))
+                if self.current != me:
+                    self.error = f'{me} ran without the baton'
+                    return
+                if self.idx < len(self.plan) and self.plan[self.idx][1] is not None:
+                    self.plan[self.idx][1] -= 1
+                    if self.plan[self.idx][1] <= 0:
+                        self.trace.append((me, 'line', info.get('where', '')))
+                        if self.depth[me] > 0:
+                            self.parked_mid.add(me)
+                        self._advance()
+                self._wait(me)
+            return
         cell = ''
         f = info.get('formula')
         if f is not None and getattr(f, 'cell', None) is not None:
@@ -416,7 +439,16 @@ def one_schedule(ctx, ia, ib, seed, plan, points, warm, refs):
     return sig
 
 
+_REFS = {}
+
+
 def references(seed):
+    if seed not in _REFS:
+        _REFS[seed] = _references(seed)
+    return _REFS[seed]
+
+
+def _references(seed):
     refs = {}
     ws = workloads(seed)
     for i, wl in enumerate(ws):
@@ -489,6 +521,126 @@ def schedules(ctx):
             seen.add(sig)
             ctx.count('distinct_interleavings')
         ctx.count(f'pairkind:{ia}{ib}')
+
+
+# --------------------------------------------------------------------------- statement level preemption
+
+class LineHook:
+    """sys.monitoring LINE events of the library's own files, routed to the active scheduler as 'line' points"""
+
+    def __init__(self):
+        import pycel
+        self.mon = getattr(sys, 'monitoring', None)
+        self.root = os.path.dirname(os.path.abspath(pycel.__file__)) + os.sep
+        self.tool = None
+
+    def __enter__(self):
+        mon = self.mon
+        if mon is None:
+            return self
+        try:
+            mon.use_tool_id(mon.COVERAGE_ID, 'vp-c07-lines')
+        except ValueError:
+            return self
+        self.tool = mon.COVERAGE_ID
+        root = self.root
+
+        def on_line(code, line):
+            if not code.co_filename.startswith(root) or code.co_filename.endswith('_verif.py'):
+                return mon.DISABLE
+            sched = ACTIVE['sched']
+            if sched is not None:
+                name = threading.current_thread().name
+                if name in sched.armed:
+                    sched.event(name, 'line', {'where': f'{code.co_filename[len(root):]}:{line}'})
+        mon.register_callback(self.tool, mon.events.LINE, on_line)
+        mon.set_events(self.tool, mon.events.LINE)
+        return self
+
+    def __exit__(self, *exc):
+        if self.tool is not None:
+            self.mon.set_events(self.tool, 0)
+            self.mon.register_callback(self.tool, self.mon.events.LINE, None)
+            self.mon.free_tool_id(self.tool)
+            self.tool = None
+        return False
+
+
+def line_trace(wl):
+    """the places (file:line) of the statement starts of the library, in order, while the workload runs alone
+    (compiled before, like under a plan)"""
+    sched = Sched([['A', None]], ('line',))
+    sched.alive = {'A'}
+    sched.record = []
+    ACTIVE['sched'] = sched
+    comp = compile_workload(wl)
+
+    def body():
+        sched.start('A')
+        try:
+            return run_workload(wl, comp)
+        finally:
+            sched.finish('A')
+    try:
+        in_thread('A', body)
+    finally:
+        ACTIVE['sched'] = None
+    return sched.record
+
+
+def line_schedules(ctx, budget_fraction=0.3):
+    """thread A is stopped at a statement inside the library (any statement, not only the hooks), thread B runs
+    completely - or to one of its own statements, after which A finishes first - and both must return what they
+    return alone.  The stops are chosen by place: every distinct statement (file:line) that a workload executes is a
+    stop at one of its occurrences (first, last or any), so that a window between two hooks is entered wherever in
+    the code it lies; the (workload, place) pairs are dealt out over the shards and taken until the budget is used."""
+    import random
+    seed = 1000 + ctx.seed
+    ws = workloads(seed)
+    refs = references(seed)
+    hook = LineHook()
+    with hook:
+        if hook.tool is None:
+            ctx.count('line_level:no_monitoring_available')
+            return
+        places, traces = [], {}
+        light = [i for i in range(len(ws)) if 'book' not in ws[i]]       # (a shipped workbook takes 0.3 s to load)
+        for i in light:
+            tr = line_trace(ws[i])
+            traces[i] = tr
+            traces[('B', i)] = line_trace(workloads(seed + 3)[i]) if ws[i]['name'] in OTHER_VALUES_FOR_B else tr
+            where = {}
+            for pos, w in enumerate(tr, 1):
+                where.setdefault(w, []).append(pos)
+            places += [(i, w, occ) for w, occ in sorted(where.items())]
+            if ctx.shard == 0:
+                ctx.count('line_level:statements_in_the_workloads', len(tr))
+                ctx.count('line_level:distinct_places_in_the_workloads', len(where))
+        # the same deal for every shard, each takes its share
+        random.Random(h64(('c07-places', ctx.seed))).shuffle(places)
+        rng = ctx.rng
+        deadline = time.monotonic() + ctx.budget * budget_fraction
+        seen = set()
+        for n, (ia, w, occ) in enumerate(places):
+            if not ctx.mine(n):
+                continue
+            if time.monotonic() >= deadline or ctx.out_of_time():
+                ctx.count('line_level:places_not_reached_in_the_budget')
+                continue
+            ib = ia if rng.random() < 0.4 else rng.choice(light)
+            nb = len(traces[('B', ib)])
+            if nb < 2:
+                continue
+            j = rng.choice((occ[0], occ[-1], rng.choice(occ)))
+            if rng.random() < 0.65:
+                plan = [['A', j], ['B', None], ['A', None]]
+            else:
+                plan = [['A', j], ['B', rng.randint(1, nb)], ['A', None], ['B', None]]
+            sig = one_schedule(ctx, ia, ib, seed, plan, ('line',), {'A': False, 'B': False}, refs)
+            ctx.count('line_level:schedules')
+            if w not in seen:
+                seen.add(w)
+                ctx.count('line_level:distinct_places_stopped_at')
 
 
 # --------------------------------------------------------------------------- fresh thread first calls
@@ -696,11 +848,17 @@ def settings_left_as_found(ctx, start, after):
 def run(ctx):
     install()
     start = interpreter_settings()
+    if os.environ.get('VP_C07_ONLY') == 'lines':        # (experiments with tools/trybreak.py only)
+        line_schedules(ctx, budget_fraction=1.0)
+        return
     fresh_ops(ctx)
     if not settings_left_as_found(ctx, start, 'the first calls on fresh threads'):
         return
     stress(ctx, 8 if ctx.quick else 60)
     if not settings_left_as_found(ctx, start, 'concurrent evaluations on several threads'):
+        return
+    line_schedules(ctx)
+    if not settings_left_as_found(ctx, start, 'the interleavings at statement level'):
         return
     schedules(ctx)
     settings_left_as_found(ctx, start, 'the scheduled interleavings')
@@ -713,6 +871,11 @@ def replay(ctx, case):
     install()
     if case['kind'] == 'schedule':
         refs = references(case['seed'])
+        if 'line' in case['points']:
+            with LineHook():
+                one_schedule(ctx, case['a'], case['b'], case['seed'], case['plan'], tuple(case['points']),
+                             case['warm'], refs)
+            return
         one_schedule(ctx, case['a'], case['b'], case['seed'], case['plan'], tuple(case['points']),
                      case['warm'], refs)
     elif case['kind'] == 'fresh':
